@@ -100,8 +100,86 @@ def atom_name(x):
     return None
 
 
+def check_approx_paths(run, S, name, r, tr, kind):
+    """The comparator decided path by path (a fast path `if self == other { return true }`, guard clauses, ...): a path that
+    returns true must have established, for EVERY component pair, the scalar comparator of this trait with the caller's
+    tolerances - or exact equality of the pair, for which every approx relation holds; a path that returns false must have
+    established that the comparator fails for some pair; a path that returns a comparator call must have settled all
+    the other pairs."""
+    where = r.get('span')
+    cv = Conv(S)
+    key = '%s:%s' % (PROP, name)
+    la, lb = leafnames('a0', kind), leafnames('a1', kind)
+    want = list(zip(la, lb))
+    tol_atoms = {'abs_diff': ['a2'], 'relative': ['a2', 'a3'], 'ulps': ['a2', 'a3']}[tr]
+
+    def clause(tid):
+        """(pair, 'cmp' | 'eq', negated) for a guard/return term that is this trait's comparator on a wanted pair with the
+        right tolerances, or an exact equality of a wanted pair; None otherwise"""
+        g_ = parse_guard(S, cv, tid)
+        pa, pb = atom_name(g_.get('a')), atom_name(g_.get('b'))
+        pair = (pa, pb) if (pa, pb) in want else ((pb, pa) if (pb, pa) in want else None)
+        if pair is None:
+            return None
+        if g_['kind'] == tr:
+            tols = [S.terms[x][1] if S.terms[x][0] == 'v' else S.show(x) for x in g_.get('tols', [])]
+            return (pair, 'cmp', g_['neg']) if tols == tol_atoms else None
+        if g_['kind'] == 'eq':
+            return (pair, 'eq', g_['neg'])
+        return None
+    ls = ret_leaves(r['out'])
+    bad = []
+    n_true = 0
+    for guards, leaf in ls:
+        if leaf['k'] != 'ret':
+            bad.append('leaf %s' % leaf['k'])
+            continue
+        holds, fails = set(), set()
+        okg = True
+        for kind_, tid, wantv in guards:
+            c = clause(tid) if kind_ == 'ite' else None
+            if c is None:
+                bad.append('guard %s' % S.show(tid)[:80])
+                okg = False
+                break
+            pair, what, neg = c
+            truth = (wantv is True) != neg
+            if truth:
+                holds.add(pair)                   # comparator true, or exactly equal (then every comparator holds)
+            elif what == 'cmp':
+                fails.add(pair)                   # (an exact inequality says nothing about the approximate relation)
+        if not okg:
+            continue
+        v = leaf['v']
+        if v.get('i') == '1':
+            n_true += 1
+            miss = [p_ for p_ in want if p_ not in holds]
+            if miss:
+                bad.append('returns true without settling %s' % miss[:3])
+        elif v.get('i') == '0':
+            if not fails:
+                bad.append('returns false although no comparator failed: %s' % [S.show(t)[:50] for k_, t, w in guards][:3])
+        elif 't' in v:
+            c = clause(v['t'])
+            if c is None or c[1] != 'cmp' or c[2]:
+                bad.append('returns %s' % S.show(v['t'])[:80])
+            else:
+                miss = [p_ for p_ in want if p_ not in holds and p_ != c[0]]
+                if miss:
+                    bad.append('last clause reached without settling %s' % miss[:3])
+                n_true += 1
+        else:
+            bad.append('returns %s' % S.showval(v)[:60])
+    run.ob(key + ':coverage', not bad and n_true >= 1, rule='K2 comparator coverage (path by path)', expected='true only where every one of the %d component pairs passed %s_eq (or is exactly equal), false only where one failed' % (len(want), tr),
+           found=bad[:3] or 'all %d paths' % len(ls), where=where)
+
+
 def check_approx(run, S, name, spec, kw):
     tr, kind = spec[1], spec[2]
+    r0 = run.use_root(S, name)
+    if r0 is not None and not any(l['k'] == 'top' for g_, l in ret_leaves(r0['out'])) and bool_conjunction(S, r0['out']) is None:
+        check_approx_paths(run, S, name, r0, tr, kind)
+        return
     rc = conj(run, S, name)
     if rc is None:
         return
